@@ -262,6 +262,9 @@ class CIPDriver:
     def _list_identity(self):
         request = ListIdentityRequestPacket()
         response = self.send(request)
+        if not response:  # e.g. a non-zero encapsulation status: whatever follows the header is not an identity
+            self.__log.error("list identity failed: %s", response.error)
+            return {}
         return response.identity
 
     def get_module_info(self, slot: int) -> dict:
